@@ -206,6 +206,7 @@ def r2_getr(ctx):
     loop = loops[0]
     ev = Ev(W, env=env, fnode=fn)
     at = body.index(loop)
+    _established(ctx, W, fn, body[:at], env, loop)
     ev.run(body[:at])
     carried = sorted(_assigned_names(loop))
     head = {nm: F.sym(f"{nm}@0") for nm in carried}
@@ -441,6 +442,56 @@ def r2_getr(ctx):
         ctx.ok("_getr: the docstring states the coverage integral with limits 1/sqrt(n) -/+ R", fn, nontrivial=False)
     else:
         ctx.note("_getr: the docstring does not show the coverage integral in the plain-text form 1/sqrt(n) -/+ R; documentation not compared")
+
+
+def _nnf_nodes(t):
+    yield t
+    if t[0] in ("and", "or"):
+        for x in t[1]:
+            yield from _nnf_nodes(x)
+    elif t[0] in ("any", "all"):
+        yield from _nnf_nodes(t[1])
+
+
+def _established(ctx, W, fn, before, env, loop):
+    """Every value the solver returns is *established* by the convergence test of its iteration: the coverage equation Phi(1/sqrt(n) + R) -
+    Phi(1/sqrt(n) - R) = prob has no closed-form root for a finite sample size, so a value handed back on a path that never reaches the loop (a fast
+    path, a shortcut for large n, the initial guess) solves it to within `tol` only if the guard of that path says so.  A guard that compares nothing
+    with `tol` (a threshold on n, on prob, on 1/sqrt(n)) does not bound the residual by tol: for every such threshold there are tolerances the value
+    misses.  Not decided (exit 2): a guard that does involve `tol`, or one that singles out an exact special case by an equality test.
+    Second obligation: a guard that reduces over the broadcast arguments (np.all / np.any) makes the value returned for one element depend on the
+    other elements - the array call then disagrees with the element-wise calls."""
+    paths = [q for q in enumerate_paths(W, lambda: _run_stmts(W, fn, before, env)) if q.returns]
+    t1 = ("_getr: every value returned is established by the convergence test of the Newton iteration - nothing is returned on a path that does not "
+          "reach the loop unless its guard bounds the residual of the coverage equation by tol")
+    t2 = ("_getr: the value returned for one element of a broadcast input depends on that element only - no np.all / np.any over the arguments "
+          "decides whether the iteration is skipped")
+    if not paths:
+        ctx.ok(t1, loop)
+        ctx.ok(t2, loop)
+        return
+    for q in paths:
+        tests = [(val, tv, node) for val, tv, node in q.decisions]
+        unk = [tv for _, tv, _ in tests if not rat(tv)]
+        if unk or not rat(q.value):
+            ctx.error(t1, q.node, _why(unk[0] if unk else q.value))
+            continue
+        nodes = [x for val, tv, _ in tests for x in _nnf_nodes(_nnf(tv, not val))]
+        cmps = [x for x in nodes if x[0] == "cmp"]
+        with_tol = any("tol" in (symbols(x[2]) | symbols(x[3])) for x in cmps)
+        exact = any(x[1] == "Eq" and not opaque_calls(x[2]) and not opaque_calls(x[3]) for x in cmps)
+        opaque = any(x[0] == "other" and rat(x[1]) and (opaque_calls(x[1]) or "tol" in symbols(x[1])) for x in nodes)
+        guard = [("" if val else "not ") + ast.unparse(node) if isinstance(node, ast.AST) else repr(tv) for val, tv, node in tests]
+        if with_tol or exact or opaque:
+            ctx.error(t1, q.node, {"returned ahead of the loop": repr(q.value), "guard": guard,
+                                   "not decided": "whether this guard bounds the residual of the coverage equation by tol"})
+            continue
+        ctx.fail(t1, q.node, {"returned ahead of the loop": repr(q.value), "guard": guard or "none",
+                              "why": "the guard compares nothing with tol: the value is not a root of Phi(1/sqrt(n) + R) - Phi(1/sqrt(n) - R) = prob to "
+                                     "within tol (the result misses the tolerance and jumps where the guard switches)"})
+        red = [x for x in nodes if x[0] in ("any", "all") and any(y[0] == "cmp" and ((symbols(y[2]) | symbols(y[3])) & {"S", "prob"}) for y in _nnf_nodes(x))]
+        ctx.check(not red, t2, q.node, None if not red else {"guard": guard, "why": "one small n in the array switches the fast path off for all of them: "
+                                                                       "_getr(array)[i] differs from _getr(array[i])"})
 
 
 def _through_with(stmts):
@@ -859,7 +910,7 @@ def r5_brackets(ctx):
 
 RULES = [
     ("C20-R1", r1_ksingle, 3),
-    ("C20-R2", r2_getr, 6),
+    ("C20-R2", r2_getr, 8),
     ("C20-R3", r3_kdouble, 3),
     ("C20-R4", r4_order_stats, 7),
     ("C20-R5", r5_brackets, 7),
